@@ -80,7 +80,8 @@ impl TableBuilder for TypeDeclaration {
                 global_table: Some(table),
                 local_table: None,
             };
-            let data_type = get_data_type(self.type_expr.as_mut(), Some(name), &lookup_table);
+            let data_type =
+                get_data_type(self.type_expr.as_mut(), Some(&name.value), &lookup_table);
             if table
                 .enter(
                     name.to_string(),
@@ -109,11 +110,11 @@ impl TableBuilder for ProcedureDeclaration {
             let parameters = self
                 .parameters
                 .iter_mut()
-                .filter_map(|param| build_parameter(param, table, &mut local_table))
+                .filter_map(|param| build_parameter(param, name, table, &mut local_table))
                 .collect();
             self.variable_declarations
                 .iter_mut()
-                .for_each(|dec| build_variable(dec, table, &mut local_table));
+                .for_each(|dec| build_variable(dec, name, table, &mut local_table));
             let entry = ProcedureEntry {
                 name: name.clone(),
                 local_table,
@@ -132,8 +133,17 @@ impl TableBuilder for ProcedureDeclaration {
     }
 }
 
+/// Name of the anonymous array type of a parameter or variable.
+/// Every type expression creates a type of its own,
+/// so the name must differ from all type names
+/// and from the names of the parameters and variables of all other procedures.
+fn anonymous_type_creator(procedure: &Identifier, name: &Identifier) -> String {
+    format!("{}.{}", procedure.value, name.value)
+}
+
 fn build_parameter(
     param: &mut Reference<ParameterDeclaration>,
+    procedure: &Identifier,
     global_table: &GlobalTable,
     local_table: &mut LocalTable,
 ) -> Option<VariableEntry> {
@@ -152,7 +162,8 @@ fn build_parameter(
                 global_table: Some(global_table),
                 local_table: None,
             };
-            let data_type = get_data_type(type_expr.as_mut(), Some(name), &lookup_table);
+            let creator = anonymous_type_creator(procedure, name);
+            let data_type = get_data_type(type_expr.as_mut(), Some(&creator), &lookup_table);
             let param_entry = VariableEntry {
                 name: name.clone(),
                 is_ref: *is_ref,
@@ -182,6 +193,7 @@ fn build_parameter(
 
 fn build_variable(
     var: &mut Reference<VariableDeclaration>,
+    procedure: &Identifier,
     global_table: &GlobalTable,
     local_table: &mut LocalTable,
 ) {
@@ -199,7 +211,7 @@ fn build_variable(
             is_ref: false,
             data_type: get_data_type(
                 type_expr.as_mut(),
-                Some(name),
+                Some(&anonymous_type_creator(procedure, name)),
                 &LookupTable {
                     global_table: Some(global_table),
                     local_table: Some(local_table),
@@ -220,7 +232,7 @@ fn build_variable(
 
 fn get_data_type(
     type_expr: Option<&mut Reference<TypeExpression>>,
-    caller: Option<&Identifier>,
+    caller: Option<&str>,
     table: &LookupTable,
 ) -> Option<DataType> {
     type_expr.and_then(|type_expr| {
